@@ -100,15 +100,18 @@ def _impl(tier, seed, search):
                            'log': lambda Z: Z.log(), 'norm': lambda Z: Z.norm(),
                            'interp(0.3)': lambda Z: Z.interp(0.3)}
                 if c in ('SE2', 'SE3'): methods['t'] = lambda Z: Z.t
-                if c in ('SO3', 'SE3'): methods.update({'eul': lambda Z: Z.eul(), 'rpy': lambda Z: Z.rpy(), 'angvec': lambda Z: Z.angvec()})
-                if c in ('SO2', 'SE2'): methods['theta'] = lambda Z: Z.theta()
+                if c in ('SO3', 'SE3'): methods.update({'eul': lambda Z: Z.eul(), 'rpy': lambda Z: Z.rpy(), 'angvec': lambda Z: Z.angvec(),
+                                                        'rpy(xyz)': lambda Z: Z.rpy(order='xyz'), 'rpy(yxz)': lambda Z: Z.rpy(order='yxz'), 'rpy(deg)': lambda Z: Z.rpy(unit='deg'),
+                                                        'eul(deg)': lambda Z: Z.eul(unit='deg'), 'eul(flip)': lambda Z: Z.eul(flip=True), 'angvec(deg)': lambda Z: Z.angvec(unit='deg')})
+                if c in ('SO2', 'SE2'): methods.update({'theta': lambda Z: Z.theta(), 'theta(deg)': lambda Z: Z.theta(unit='deg')})
                 if c == 'SE2': methods['xyt'] = lambda Z: Z.xyt()
                 p = g.normal(size=2 if c in ('SO2', 'SE2') else 3)
                 methods['*point'] = lambda Z: Z * p
             elif c in ('Quaternion', 'UnitQuaternion'):
                 methods = {'conj': lambda Z: Z.conj(), 'norm': lambda Z: Z.norm(), 's': lambda Z: Z.s, 'v': lambda Z: Z.v, 'vec': lambda Z: Z.vec, '**2': lambda Z: Z ** 2, '**-1': lambda Z: Z ** -1}
                 if c == 'UnitQuaternion':
-                    methods.update({'inv': lambda Z: Z.inv(), 'R': lambda Z: Z.R, 'rpy': lambda Z: Z.rpy(), 'eul': lambda Z: Z.eul(), '*point': (lambda p_: lambda Z: Z * p_)(g.normal(size=3))})
+                    methods.update({'inv': lambda Z: Z.inv(), 'R': lambda Z: Z.R, 'rpy': lambda Z: Z.rpy(), 'eul': lambda Z: Z.eul(),
+                                    'rpy(xyz)': lambda Z: Z.rpy(order='xyz'), 'rpy(deg)': lambda Z: Z.rpy(unit='deg'), 'eul(deg)': lambda Z: Z.eul(unit='deg'), '*point': (lambda p_: lambda Z: Z * p_)(g.normal(size=3))})
             else:
                 methods = {'inv': lambda Z: Z.inv(), 'exp': lambda Z: Z.exp(), 'S': lambda Z: Z.S}
                 if c == 'Twist3': methods.update({'v': lambda Z: Z.v, 'w': lambda Z: Z.w, 'pitch': lambda Z: Z.pitch(), 'theta': lambda Z: Z.theta(), 'se3': lambda Z: Z.se3()})
